@@ -266,6 +266,13 @@ def classify_site(ast, path, frec, site, par):
     fnode = frec["node"]
     p = par.get(id(site))
     pn, k = p
+    # the result is only given a name (`let r = <site>;`, never reassigned, used once): the use of the name is judged
+    if pn["t"] == "Local" and k == "init" and pn["pat"]["t"] == "PIdent" and not pn["pat"].get("mut") and pn.get("else") is None:
+        nm = pn["pat"]["name"]
+        uses = [n_ for n_ in walk_t(fnode["body"], "PathExpr") if n_["path"]["name"] == nm and n_ is not site]
+        shadows = [l_ for l_ in walk_t(fnode["body"], "Local") if l_ is not pn and any(x_["name"] == nm for x_ in walk_t(l_["pat"], "PIdent"))]
+        if len(uses) == 1 and not shadows and id(uses[0]) in par:
+            return classify_site(ast, path, frec, uses[0], par)
     # (a) `?`
     if pn["t"] == "Try":
         out = fnode["sig"]["output"]
@@ -293,6 +300,12 @@ def classify_site(ast, path, frec, site, par):
                 return "is_none", False, f"failure branch does not return ({why if isinstance(why, str) else 'it yields a value in the middle of the function'})"
             if in_tail_position(pn, fnode, par):
                 return "flag", True, "failure flag returned to the caller (JIT shim)"
+            if gp is not None and gp[0]["t"] == "Local" and gp[1] == "init" and gp[0]["pat"]["t"] == "PIdent" and not gp[0]["pat"].get("mut"):
+                # `let failed = x.is_none(); .. failed` : the named flag is the value of the function
+                nm = gp[0]["pat"]["name"]
+                uses = [n_ for n_ in walk_t(fnode["body"], "PathExpr") if n_["path"]["name"] == nm]
+                if len(uses) == 1 and id(uses[0]) in par and in_tail_position(uses[0], fnode, par):
+                    return "flag", True, "failure flag returned to the caller (JIT shim)"
             return "is_none", False, "result of is_none() is not used to stop"
     # (c) if let Some(..) = site { .. } else { .. }
     if pn["t"] == "Let" and k == "expr":
@@ -899,63 +912,48 @@ def run_lim(res, ast, with_jit=True):
                       "nested run outwards): " + "; ".join(bad_[:2]))
     except Missing as m:
         res.missing("LIM-BACKEDGE", m)
-    # ---- bytecode interpreter (structural patterns, independent of local names)
+    # ---- bytecode interpreter: build_threaded_code evaluated in limited mode on a program with every kind of branch (emitters scripted)
     try:
         f = ast.fn(BCMOD, "build_threaded_code", contains="BcInterpreter")
-        body = f["node"]["body"]
-        sigp = [p_["pat"]["name"] for p_ in f["node"]["sig"]["inputs"] if p_["t"] == "Arg"]
-        env0 = {"__v_limited": sigp[0], "__v_safe": sigp[1]} if len(sigp) == 2 else {}
-        loops = [l for l in walk_t(body, "ForLoop")]
-        main = loops[0]
-        w = where(BCMOD, main, "build_threaded_code")
-        b1 = pm.match_stmts(main["body"]["stmts"],
-                            "__v_start.push(__v_insts.len()); if __v_limited { __rest; } __v_offs.push(__v_insts.len()); emit(&mut __v_insts, __v_inst, __v_safe);", env0)
-        res.check(b1 is not None, "LIM-BACKEDGE", f"{BCMOD}|build_threaded_code|order", w,
-                  "per instruction the order must be: start.push(insts.len()), `if limited {emit_limit..}`, offset.push(insts.len()), emit(..) "
-                  "(so that a branch to this instruction lands on its budget check)")
-        if b1:
-            lim_if = [s_ for s_ in main["body"]["stmts"] if s_["t"] == "ExprStmt" and s_["expr"]["t"] == "If"][0]["expr"]
-            br = False
-            for s_ in lim_if["then"]["stmts"]:
-                e = s_.get("expr") if s_["t"] == "ExprStmt" else None
-                if e is None or e["t"] != "If":
-                    continue
-                for alt in ("Instr::BrZ(_, _) | Instr::BrNZ(_, _)", "Instr::BrNZ(_, _) | Instr::BrZ(_, _)"):
-                    if pm.match_expr(e, "if let " + alt + " = __v_inst { emit_limit(&mut __v_insts, __e_cost); }", {"__v_inst": b1["__v_inst"], "__v_insts": b1["__v_insts"]}):
-                        br = True
-                # the same test written with matches!(inst, BrZ(..) | BrNZ(..))
-                c_ = strip_paren(e["cond"])
-                if c_["t"] == "MacroExpr" and c_["mac"]["name"] == "matches" and e.get("else") is None:
-                    toks = "".join((c_["mac"].get("tokens") or "").split())
-                    body_ok = pm.match_stmts(e["then"]["stmts"], "emit_limit(&mut __v_insts, __e_cost);", {"__v_insts": b1["__v_insts"]}) is not None
-                    both = {"Instr::BrZ(_,_)|Instr::BrNZ(_,_)", "Instr::BrNZ(_,_)|Instr::BrZ(_,_)"}
-                    if body_ok and toks.startswith(b1["__v_inst"] + ",") and toks[len(b1["__v_inst"]) + 1:] in both:
-                        br = True
-            res.check(br, "LIM-BACKEDGE", f"{BCMOD}|build_threaded_code|branches", w, "under `limited` both BrZ and BrNZ must be preceded by emit_limit")
-            # the fix-up loop, evaluated symbolically for one branch instruction i with offset off: the slice handed to adjust_branch must start
-            # at the branch op itself (offs[i]) and the distance must be start[i + off] - offs[i]
-            okf = False
-            fix_why = "no fix-up loop calling adjust_branch found"
-            want_slice = ("slice", "insts", ("idx", "offs", Poly.var("i")), None)
-            want_dist = ("sub", ("idx", "start", Poly.var("i") + Poly.var("off")), ("idx", "offs", Poly.var("i")))
-            for l in loops[1:]:
-                if not any(path_name(c_["func"]) == "adjust_branch" for c_ in walk_t(l, "Call")):
-                    continue
-                ri = RelocInterp({b1["__v_start"]: "start", b1["__v_offs"]: "offs", b1["__v_insts"]: "insts", "self.bytecode.insts": "code"})
-                try:
-                    ri.eval(l, Env())
-                    if len(ri.calls) != 1:
-                        fix_why = f"{len(ri.calls)} adjust_branch calls per branch instruction"
-                    else:
-                        sl, dist = ri.calls[0]
-                        if sl == want_slice and dist == want_dist:
-                            okf = True
-                        else:
-                            fix_why = f"adjust_branch is given the code from {sl!r} and the distance {dist!r}"
-                except (Unanalysable, Reached, KeyError, TypeError, IndexError) as u_:
-                    fix_why = f"the fix-up loop cannot be analysed (fail closed): {u_}"
-            res.check(okf, "LIM-BACKEDGE", f"{BCMOD}|build_threaded_code|fixup", where(BCMOD, f["node"], "build_threaded_code"),
-                      "branch offsets must be start[i + off] - offset[i]: the target includes the target's budget check, the origin is the branch op itself; " + fix_why)
+        import itereval as _ie
+        I_ = lambda n, *a_: _ie.Ctor("Instr::" + n, list(a_))
+        prog = [I_("Inp", 0), I_("BrZ", 0, 4), I_("Out", 0), I_("BrZ", 1, 2), I_("Mov", 2), I_("BrNZ", 0, -3), I_("Scan", 1, 0), I_("Out", 0)]
+        w = where(BCMOD, f["node"], "build_threaded_code")
+        o_bad, b_bad, f_bad = [], [], []
+        try:
+            code, adj = btc_stream(ast, f, prog, True)
+            pos = []
+            for ins in prog:
+                hit = [i_ for i_, x_ in enumerate(code) if x_[0] == "op" and x_[1] is ins]
+                if len(hit) != 1:
+                    o_bad.append(f"{ins!r} is emitted {len(hit)} times")
+                pos.append(hit[0] if hit else None)
+            if not o_bad and pos != sorted(pos):
+                o_bad.append("the ops are not in program order")
+            if not o_bad:
+                start = [0] + [p_ + 1 for p_ in pos[:-1]] + [pos[-1] + 1]
+                for k_, ins in enumerate(prog):
+                    if ins.name.endswith(("::BrZ", "::BrNZ")):
+                        between = code[start[k_]:pos[k_]]
+                        if between != [("limit", 1)]:
+                            b_bad.append(f"{ins!r}: between the start of the instruction and its op the stream holds {between!r}, expected one charge of 1")
+                        hits = [off for first, off in adj if first is code[pos[k_]]]
+                        tgt = k_ + ins.fields[1]
+                        if len(hits) != 1 or pos[k_] + hits[0] != start[tgt]:
+                            f_bad.append(f"{ins!r} at op {pos[k_]} is adjusted by {hits}: it must land on element {start[tgt]}, the first element of instruction {tgt} "
+                                         "(its budget charge, if it has one)")
+                    elif not ins.name.endswith("::Scan"):
+                        if code[start[k_]:pos[k_]]:
+                            o_bad.append(f"{ins!r} is preceded by {code[start[k_]:pos[k_]]!r}")
+        except (Unanalysable, Reached, KeyError, TypeError, IndexError, AttributeError) as u_:
+            o_bad.append(f"cannot be analysed (fail closed): {u_}")
+        res.evaluations += 1
+        res.check(not o_bad, "LIM-BACKEDGE", f"{BCMOD}|build_threaded_code|order", w,
+                  "one op per instruction in program order, charges in front of the op they belong to: " + "; ".join(o_bad[:2]))
+        if not o_bad:
+            res.check(not b_bad, "LIM-BACKEDGE", f"{BCMOD}|build_threaded_code|branches", w, "under `limited` both BrZ and BrNZ must be preceded by emit_limit: " + "; ".join(b_bad[:2]))
+            res.check(not f_bad, "LIM-BACKEDGE", f"{BCMOD}|build_threaded_code|fixup", w,
+                      "a branch must land on the first element of its target instruction, which is the target's budget charge: " + "; ".join(f_bad[:2]))
         # the limit op
         lf = ast.fn(OPS, "limit")["node"]
         ps = [p_["pat"]["name"] for p_ in lf["sig"]["inputs"] if p_["t"] == "Arg" and p_["pat"]["t"] == "PIdent"]
@@ -1211,20 +1209,25 @@ def run_lim(res, ast, with_jit=True):
                 key = f"{path}|{frec['name']}|budget|{n}"
                 res.check(guarded, "LIM-GUARD", key if not guarded else f"{path}|{frec['name']}|budget-use|{n}", where(path, fld, frec["name"]),
                           f"{frec['name']}: the budget is consulted outside `if LIMITED`/`limited &&`: an unlimited run could stop on it")
-    # callers of emit_limit are under `if limited`
+    # no budget charge is emitted for an unlimited run: build_threaded_code evaluated with limited = false (emitters scripted) on a program
+    # with every instruction class that is charged in limited mode; one obligation per emit_limit call site of the function
     try:
         f = ast.fn(BCMOD, "build_threaded_code", contains="BcInterpreter")
-        par = parents(f["node"])
-        for c in [c for c in walk_t(f["node"]["body"], "Call") if path_name(c["func"]) == "emit_limit"]:
-            guarded = False
-            cur = c
-            while id(cur) in par:
-                pn, k = par[id(cur)]
-                if pn["t"] == "If" and k == "then" and path_name(strip_paren(pn["cond"])) in gate_names(f["node"]):
-                    guarded = True
-                cur = pn
-            res.check(guarded, "LIM-GUARD", f"{BCMOD}|build_threaded_code|emit_limit-guard|{ast.src1(BCMOD, c['args'][1])}",
-                      where(BCMOD, c, "build_threaded_code"), "emit_limit is emitted outside `if limited`")
+        import itereval as _ie
+        I_ = lambda n, *a_: _ie.Ctor("Instr::" + n, list(a_))
+        prog = [I_("Inp", 0), I_("BrZ", 0, 3), I_("Out", 0), I_("BrNZ", 0, -2), I_("Scan", 1, 0), I_("Scan", 1, 2), I_("Out", 0)]
+        try:
+            code, _adj = btc_stream(ast, f, prog, False)
+            extra = [x_ for x_ in code if x_[0] == "limit"]
+            why = f"an unlimited run is charged {extra!r}" if extra else ""
+        except (Unanalysable, Reached, KeyError, TypeError, IndexError, AttributeError) as u_:
+            extra, why = [None], f"cannot be analysed (fail closed): {u_}"
+        res.evaluations += 1
+        sites = [c for c in walk_t(f["node"]["body"], "Call") if path_name(c["func"]) == "emit_limit"] + \
+                [c for g in ast.find_fns(BCMOD) if g["node"] is not f["node"] and g["node"].get("body") for c in walk_t(g["node"]["body"], "Call") if path_name(c["func"]) == "emit_limit"]
+        for c in sites or [f["node"]]:
+            res.check(not extra, "LIM-GUARD", f"{BCMOD}|build_threaded_code|emit_limit-guard|{ast.src1(BCMOD, c['args'][1]) if c.get('args') else 'none'}",
+                      where(BCMOD, c, "build_threaded_code"), "emit_limit is emitted outside `if limited`: " + why)
     except Missing as m:
         res.missing("LIM-GUARD", m)
     # entry points map to the right mode (SAFE-MAP, limited half)
@@ -1328,6 +1331,46 @@ def run_mode_map(res, ast, rule):
         # no execute_unsafe override
         fs = [f for f in ast.find_fns(path, "execute_unsafe") if "impl Executable" in f["container"]]
         res.check(not fs, rule, f"{path}|{ty}::execute_unsafe|default", path, f"{ty} overrides execute_unsafe: unchecked mode must fall back to execute")
+
+
+def btc_stream(ast, f, prog, limited, safe=True):
+    """bcint::build_threaded_code evaluated on the bytecode program `prog` with the emitters scripted (lib/receval.py):
+    -> (stream of ("op", instr, safe) / ("limit", cost) / ("return",) elements, [(first element of the adjusted slice, offset)])"""
+    import receval
+    from receval import Rec
+    from rusteval import UNIT as _UNIT
+    adj = []
+
+    def emit(it, insts, ins, sf):
+        insts.append(("op", ins, sf))
+        return _UNIT
+
+    def emit_limit(it, insts, cost):
+        insts.append(("limit", cost))
+        return _UNIT
+
+    def emit_return(it, insts):
+        insts.append(("return",))
+        return _UNIT
+
+    def adjust(it, sl, off):
+        adj.append((sl[0] if sl else None, off))
+        return _UNIT
+    ps_ = [p_["pat"]["name"] for p_ in f["node"]["sig"]["inputs"] if p_["t"] == "Arg" and p_["pat"]["t"] == "PIdent"]
+    if len(ps_) != 2:
+        raise Unanalysable("build_threaded_code(&self, limited, safe): unexpected parameters")
+    me = Rec(bytecode=Rec(insts=list(prog), temps=2, min_accessed=0, max_accessed=1))
+    it = receval.RecInterp(ast, BCMOD, me, scripted={"emit": emit, "emit_limit": emit_limit, "emit_return": emit_return, "adjust_branch": adjust})
+    env_ = Env()
+    env_.bind(ps_[0], limited)
+    env_.bind(ps_[1], safe)
+    try:
+        code = it.exec_block(f["node"]["body"], env_)
+    except ReturnEx as r_:
+        code = r_.value
+    if not isinstance(code, list):
+        raise Unanalysable("no code vector is returned")
+    return code, adj
 
 
 def run_thread_seq(res, ast, rule="THREAD-SEQ"):
